@@ -302,6 +302,9 @@ def like_prune(pyhf, pre, out, exp_spec, step, fails):
     try:
         mo = build_model(out)
     except Exception as e:  # noqa: BLE001
+        if "No parameters specified" in str(e):
+            # pruning removed the last modifier: pyhf refuses parameter-free models by design, nothing to compare
+            raise Skip("pruned workspace has no parameter left")
         fails.append(("the pruned workspace has no model although the input has one", {"exception": f"{type(e).__name__}: {e}"[:300]}, ["like:nomodel"]))
         return
     tp, to = mod_types(pre), mod_types(exp_spec)
